@@ -249,4 +249,231 @@ theorem gapsRow_eq_def (rows : List Row) (lt : Nat) (f0 : Int) (n : Nat)
   unfold gapsRow dispDef sqDef
   rw [meanOpt_congr hlen h1, meanOpt_congr (by simpa using hlen) h2]
 
+/-! ## the FFT path -/
+
+theorem zipWith_sub_sum : ∀ (A B : List Rat), A.length = B.length →
+    (List.zipWith (· - ·) A B).sum = A.sum - B.sum
+  | [], [], _ => by simp
+  | [], _ :: _, h => by simp at h
+  | _ :: _, [], h => by simp at h
+  | a :: A, b :: B, h => by
+    have := zipWith_sub_sum A B (by simpa using h)
+    simp only [List.zipWith_cons_cons, List.sum_cons, this]; ring
+
+theorem zipWith_add_sum : ∀ (A B : List Rat), A.length = B.length →
+    (List.zipWith (· + ·) A B).sum = A.sum + B.sum
+  | [], [], _ => by simp
+  | [], _ :: _, h => by simp at h
+  | _ :: _, [], h => by simp at h
+  | a :: A, b :: B, h => by
+    have := zipWith_add_sum A B (by simpa using h)
+    simp only [List.zipWith_cons_cons, List.sum_cons, this]; ring
+
+theorem zipWith_trunc_right {α β γ} (f : α → β → γ) : ∀ (A : List α) (B : List β),
+    List.zipWith f A B = List.zipWith f A (B.take A.length)
+  | [], _ => by simp
+  | _ :: _, [] => by simp
+  | a :: A, b :: B => by simp [zipWith_trunc_right f A B]
+
+theorem zipWith_trunc_left {α β γ} (f : α → β → γ) : ∀ (A : List α) (B : List β),
+    List.zipWith f A B = List.zipWith f (A.take B.length) B
+  | [], _ => by simp
+  | _ :: _, [] => by simp
+  | a :: A, b :: B => by simp [zipWith_trunc_left f A B]
+
+theorem sum_take_drop (l : List Rat) (k : Nat) : (l.take k).sum + (l.drop k).sum = l.sum := by
+  rw [← sum_app, List.take_append_drop]
+
+theorem sum_reverse_take (l : List Rat) (k : Nat) :
+    (l.reverse.take k).sum = (l.drop (l.length - k)).sum := by
+  rw [List.take_reverse, sum_rev]
+
+theorem sq_expand : ∀ (A B : List Rat), A.length = B.length →
+    ((List.zipWith (· - ·) A B).map sq).sum
+      = (A.map sq).sum + (B.map sq).sum - 2 * (List.zipWith (· * ·) B A).sum
+  | [], [], _ => by simp
+  | [], _ :: _, h => by simp at h
+  | _ :: _, [], h => by simp at h
+  | a :: A, b :: B, h => by
+    have := sq_expand A B (by simpa using h)
+    simp only [List.zipWith_cons_cons, List.map_cons, List.sum_cons, this, sq]; ring
+
+/-- the displacements the contiguous path averages at lag `m`: `r[m:] - r[:-m]` -/
+def shiftDiffs (r : List Rat) (m : Nat) : List Rat := List.zipWith (· - ·) (r.drop m) r
+
+theorem shiftDiffs_length (r : List Rat) (m : Nat) : (shiftDiffs r m).length = r.length - m := by
+  simp [shiftDiffs]
+
+/-- ALGEBRAIC HEART of the FFT path: with `S2[m]` the autocorrelation the FFT is trusted to compute,
+`cumsum(r_diff)[m-1]` is `Σ_i (r_{i+m} - r_i)` and `S1[m] - 2·S2[m]` is `Σ_i (r_{i+m} - r_i)²`. -/
+theorem fft_sums (r : List Rat) (L m : Nat) (hmL : m ≤ L) (hL : L ≤ r.length) :
+    prefixSum (List.zipWith (· - ·) (r.reverse.take L) (r.take L)) m = (shiftDiffs r m).sum ∧
+    2 * (r.map sq).sum
+        - prefixSum (List.zipWith (· + ·) ((r.map sq).take L) ((r.map sq).reverse.take L)) m
+        - 2 * autocorr r m
+      = ((shiftDiffs r m).map sq).sum := by
+  have hm : m ≤ r.length := Nat.le_trans hmL hL
+  have hmin : min m L = m := Nat.min_eq_left hmL
+  -- the two sides of `shiftDiffs` have equal length after truncation
+  have hsd : shiftDiffs r m = List.zipWith (· - ·) (r.drop m) (r.take (r.length - m)) := by
+    unfold shiftDiffs
+    rw [zipWith_trunc_right]; simp
+  have hlen : (r.drop m).length = (r.take (r.length - m)).length := by simp
+  constructor
+  · unfold prefixSum
+    rw [List.take_zipWith, List.take_take, List.take_take, hmin,
+      zipWith_sub_sum _ _ (by simp [hm]), sum_reverse_take, hsd, zipWith_sub_sum _ _ hlen]
+    have h1 := sum_take_drop r m
+    have h2 := sum_take_drop r (r.length - m)
+    linarith
+  · unfold prefixSum autocorr
+    rw [List.take_zipWith, List.take_take, List.take_take, hmin,
+      zipWith_add_sum _ _ (by simp [hm]), sum_reverse_take, hsd, sq_expand _ _ hlen,
+      List.map_drop, List.map_take]
+    have h1 := sum_take_drop (r.map sq) m
+    have h2 := sum_take_drop (r.map sq) ((r.map sq).length - m)
+    have h3 : List.zipWith (· * ·) r (r.drop m)
+        = List.zipWith (· * ·) (r.take (r.length - m)) (r.drop m) := by
+      rw [zipWith_trunc_left]; simp
+    rw [h3]
+    simp only [List.length_map] at h2 ⊢
+    linarith
+
+/-- `_msd_fft` row `m` is the mean / mean square of `r[m:] - r[:-m]` -/
+theorem fftRow_eq (r : List Rat) (L m : Nat) (hmL : m ≤ L) (hL : L < r.length) :
+    (some (fftRow r L m).1, some (fftRow r L m).2)
+      = (meanOpt (shiftDiffs r m), meanOpt ((shiftDiffs r m).map sq)) := by
+  obtain ⟨h1, h2⟩ := fft_sums r L m hmL (Nat.le_of_lt hL)
+  have hlen : (shiftDiffs r m).length = r.length - m := shiftDiffs_length r m
+  have hpos : r.length - m ≠ 0 := by omega
+  have hcast : ((r.length - m : Nat) : Rat) = (r.length : Rat) - (m : Rat) := by
+    rw [Nat.cast_sub (by omega)]
+  unfold fftRow meanOpt
+  simp only [List.length_map, hlen, hpos, if_false, h1, ← h2, hcast]
+
+/-! ## contiguous trajectories: the FFT path sees the re-indexed column -/
+
+theorem zipWith_optSub_some : ∀ (A B : List Rat),
+    List.zipWith optSub (A.map some) (B.map some) = (List.zipWith (· - ·) A B).map some
+  | [], _ => by simp
+  | _ :: _, [] => by simp
+  | a :: A, b :: B => by
+    have ih := zipWith_optSub_some A B
+    simp only [List.map_cons, List.zipWith_cons_cons, ih, optSub]
+
+theorem filterMap_id_map_some (l : List Rat) : (l.map some).filterMap id = l := by
+  induction l with
+  | nil => rfl
+  | cons x xs ih =>
+    simp only [List.map_cons, List.filterMap_cons, id]
+    exact congrArg _ ih
+
+theorem gapVals_map_some_aux (A B : List Rat) :
+    (List.zipWith optSub (A.map some) (B.map some)).filterMap id = List.zipWith (· - ·) A B := by
+  rw [zipWith_optSub_some, filterMap_id_map_some]
+
+theorem gapVals_map_some (r : List Rat) (m : Nat) : gapVals (r.map some) m = shiftDiffs r m := by
+  unfold gapVals shiftDiffs
+  rw [← List.map_drop, gapVals_map_some_aux]
+
+/-- frames `f, f+1, f+2, …` -/
+def contigFrom : Int → List Int → Prop
+  | _, [] => True
+  | f, a :: l => a = f ∧ contigFrom (f + 1) l
+
+def lastD : Int → List Int → Int
+  | a, [] => a
+  | _, b :: l => lastD b l
+
+theorem getLast?_eq_lastD : ∀ (l : List Int) (a : Int), (a :: l).getLast? = some (lastD a l)
+  | [], a => by simp [lastD]
+  | b :: l, a => by rw [List.getLast?_cons_cons, getLast?_eq_lastD l b]; rfl
+
+theorem span_ge : ∀ (l : List Int) (a : Int), (a :: l).Pairwise (· < ·) →
+    lastD a l - a ≥ (l.length : Int)
+  | [], a, _ => by simp [lastD]
+  | b :: l, a, h => by
+    rw [List.pairwise_cons] at h
+    have hab : a < b := h.1 b (List.mem_cons_self ..)
+    have := span_ge l b h.2
+    simp only [lastD, List.length_cons]
+    push_cast
+    omega
+
+/-- strictly increasing integer frames whose span is `length - 1` are consecutive -/
+theorem contig_of_span : ∀ (l : List Int) (a : Int), (a :: l).Pairwise (· < ·) →
+    lastD a l - a = (l.length : Int) → contigFrom a (a :: l)
+  | [], a, _, _ => ⟨rfl, trivial⟩
+  | b :: l, a, h, hs => by
+    rw [List.pairwise_cons] at h
+    have hab : a < b := h.1 b (List.mem_cons_self ..)
+    have hge := span_ge l b h.2
+    simp only [lastD, List.length_cons] at hs
+    push_cast at hs
+    have hb : b = a + 1 := by omega
+    have := contig_of_span l b h.2 (by omega)
+    exact ⟨rfl, hb ▸ this⟩
+
+theorem reindex_contig : ∀ (rows : List Row) (f0 : Int), contigFrom f0 (rows.map (·.1)) →
+    reindex rows f0 rows.length = rows.map fun r => some r.2
+  | [], _, _ => by simp [reindex]
+  | a :: l, f0, h => by
+    simp only [List.map_cons, contigFrom] at h
+    have ih := reindex_contig l (f0 + 1) h.2
+    unfold reindex at ih ⊢
+    rw [List.length_cons, List.range_succ_eq_map, List.map_cons, List.map_map, List.map_cons]
+    congr 1
+    · rw [look_cons]; simp [h.1]
+    · rw [← ih]
+      apply List.map_congr_left
+      intro k _
+      simp only [Function.comp]
+      rw [look_cons]
+      have : a.1 ≠ f0 + ((k + 1 : Nat) : Int) := by rw [h.1]; push_cast; omega
+      rw [if_neg this]
+      congr 1
+      push_cast; ring
+
+/-! ## permutation invariance of the specification -/
+
+theorem flatMap_perm_left {α β} (l : List α) {f g : α → List β} (h : ∀ a ∈ l, (f a).Perm (g a)) :
+    (l.flatMap f).Perm (l.flatMap g) := by
+  induction l with
+  | nil => simp
+  | cons a l ih =>
+    simp only [List.flatMap_cons]
+    exact (h a (List.mem_cons_self ..)).append (ih fun x hx => h x (List.mem_cons_of_mem _ hx))
+
+theorem diffs_perm {rows rows' : List Row} (h : rows.Perm rows') (lag : Nat) :
+    (diffs rows lag).Perm (diffs rows' lag) := by
+  unfold diffs
+  refine (List.Perm.flatMap_right _ h).trans (flatMap_perm_left _ ?_)
+  intro a _
+  exact (h.filter _).map _
+
+theorem dispDef_perm {rows rows' : List Row} (h : rows.Perm rows') (lag : Nat) :
+    dispDef rows lag = dispDef rows' lag :=
+  meanOpt_congr (diffs_perm h lag).length_eq (sum_perm (diffs_perm h lag))
+
+theorem sqDef_perm {rows rows' : List Row} (h : rows.Perm rows') (lag : Nat) :
+    sqDef rows lag = sqDef rows' lag :=
+  meanOpt_congr ((diffs_perm h lag).map sq).length_eq (sum_perm ((diffs_perm h lag).map sq))
+
+/-! ## the sort -/
+
+theorem sortRows_perm (rows : List FullRow) : (sortRows rows).Perm rows :=
+  List.mergeSort_perm _ _
+
+theorem sortRows_sorted (rows : List FullRow) :
+    (sortRows rows).Pairwise fun a b => a.1 ≤ b.1 := by
+  have := List.pairwise_mergeSort (le := fun a b : FullRow => decide (a.1 ≤ b.1))
+    (by intro a b c; simp only [decide_eq_true_eq]; omega)
+    (by intro a b; simp only [Bool.or_eq_true, decide_eq_true_eq]; omega) rows
+  exact this.imp (by intro a b h; simpa using h)
+
+theorem sumOpt_map_some (l : List Rat) : sumOpt (l.map some) = some l.sum := by
+  induction l with
+  | nil => rfl
+  | cons x xs ih => simp [sumOpt, ih]
+
 end TrackpyV.MSD
